@@ -147,4 +147,18 @@ PROPS = {
         "level_note": "trusted: Lean kernel; harness/check; recording SQL driver; the syntactic taint classification of the translator",
         "assumptions": ["database/sql passes statement text and arguments unchanged to the driver"],
     },
+    "C15": {
+        "prop_files": ["Katib/Props/C15.lean"],
+        "n": {"quick": 4000, "thorough": 100000},
+        "rule": "stored experiment (budget values, resume policy, status.trials 0-6, completion state none/MaxTrialsReached/GoalReached/Failed) x update: no spec edit, "
+                "budget edits (change/remove any of the three), or an edit of one place of the spec enumerated by reflection over ExperimentSpec (every leaf, pointer->nil, "
+                "slice drop, map add, the unstructured template), re-defaulted as the mutating webhook does; case k edits path k mod #paths so every path is covered; "
+                "non-trivial = the spec was edited",
+        "trusted": ["equality.Semantic.DeepEqual is an oracle for 'the rest of the spec is unchanged'", "IsCompletedExperimentRestartable evaluated Go-side (modelled and proved in C03/C16)"],
+        "modelled": ["the oldInst != nil branch of DefaultValidator.ValidateExperiment as Katib.Upd.updErrs/admitUpdate"],
+        "level_text": "Lean theorems C15_iff (admitted <=> untouched, or only budget fields differ + restartable-if-completed + maxTrialCount > status.trials), C15_noop, "
+                      "C15_only_budget, C15_create_checks_kept for an arbitrary 'rest of spec' type; tie to the real validator over reflection-enumerated edits",
+        "level_note": "trusted: Lean kernel; harness/check; DeepEqual oracle; creation-time checks are an input (createOk) of the update model",
+        "assumptions": ["the mutating webhook re-defaults the object before validation"],
+    },
 }
